@@ -48,6 +48,9 @@ def sort_key(which):
 
 
 def expm_apply(M, delta, v):
+    if np.abs(M - M.conj().T).max() <= 1e-14 * (1 + np.abs(M).max()):  # Hermitian up to round-off
+        lam, U = np.linalg.eigh((M + M.conj().T) / 2)
+        return U @ (np.exp(delta * lam) * (U.conj().T @ v))
     return scipy.linalg.expm(delta * M) @ v
 
 
@@ -102,12 +105,14 @@ class Ctx:
         # documented: H -> P H P; E_shift shifts the inner operator, the orthogonal vectors keep eigenvalue 0
         return op, lambda s: P @ (M + (s or 0.0) * one) @ P - (s or 0.0) * one
 
-    def reference(self, Mref, key):
-        """Dense Ritz data of Mref for the start vector: Krylov ONB V, betas, and for every N <= dim the Ritz pairs."""
+    def cached(self, key, fn):
         if key not in self._refs:
-            V, betas = krylov_ref(Mref, self.v, len(self.v))
-            self._refs[key] = V, betas, 1.0 + np.abs(Mref).max()
+            self._refs[key] = fn()
         return self._refs[key]
+
+    def reference(self, Mref, key):
+        """Krylov ONB V of Mref for the start vector, norms of the new Krylov directions, scale of Mref."""
+        return self.cached(('krylov', key), lambda: krylov_ref(Mref, self.v, len(self.v)) + (1.0 + np.abs(Mref).max(),))
 
 
 context = functools.lru_cache(maxsize=64)(Ctx)
@@ -315,7 +320,7 @@ def case_evo(case):
         p, bad = observe(sp, psi, psi0)
         if chk(p is not None, 'result-structure', bad):
             norm_eff = (np.real(delta) == 0.0 if lanczos else False) if normalize is None else normalize
-            exact = expm_apply(Ms, delta, v)
+            exact = ctx.cached(('expm', dname, s), lambda: expm_apply(Ms, delta, v))
             err_exact = np.linalg.norm(p - (exact / np.linalg.norm(exact) if norm_eff else exact)) / (1.0 if norm_eff else np.linalg.norm(exact))
             if norm_eff:
                 chk(abs(np.linalg.norm(p) - 1) <= 1e-10, 'not-normalized', '|psi|=%r' % np.linalg.norm(p))
@@ -327,7 +332,7 @@ def case_evo(case):
             stop_rule(chk, N, betas, dK, dict(opt, N_min=opt.get('N_min', 2)), lambda: err_exact <= 1e-8)
             if 1 <= N <= dK:
                 VN = V[:, :N]
-                kry = np.linalg.norm(v) * (VN @ expm_apply(VN.conj().T @ Ms @ VN, delta, np.eye(N)[0]))
+                kry = ctx.cached(('expm', dname, s, N), lambda: np.linalg.norm(v) * (VN @ expm_apply(VN.conj().T @ Ms @ VN, delta, np.eye(N)[0])))
                 if norm_eff:
                     kry = kry / np.linalg.norm(kry)
                 err = np.linalg.norm(p - kry) / np.linalg.norm(kry)
@@ -341,10 +346,10 @@ def run_evo(unit):
     res = Result()
     lanczos = solver == 'LanczosEvolution'
     bases = (BASES if tier == 'thorough' else ('rot', 'urot')) if fam == 'herm' else (None,)
-    starts = [s for s in (['generic', 'mix0+last', 'eig0', 'noground'] if tier == 'quick' else start_names(d)) if s in start_names(d)]
-    calls = [(dn, nz) for dn in DELTAS for nz in (None, True, False)]
-    if tier == 'quick':
-        calls = [('real', None), ('imag', None), ('complex', False), ('imag', False), ('real', True)]
+    starts = [s for s in ['generic', 'mix0+last', 'eig0', 'noground'] + ([] if tier == 'quick' else ['e0', 'e%d' % (d - 1)]) if s in start_names(d)]
+    calls = [('real', None), ('imag', None), ('complex', False), ('imag', False), ('real', True)]
+    if tier == 'thorough':
+        calls = [(dn, nz) for dn in ('real', 'imag', 'complex') for nz in (None, True, False)] + [('real+', None)]
     for bas, start in itertools.product(bases, starts):
         base = dict(kind='evo', solver=solver, struct=struct, form=form, d=d, fam=fam, spec=spec, bas=bas, seed=seed, start=start)
         for N_max, reortho, E_shift in itertools.product(sorted({2, 3, d, d + 3}), (False, True) if lanczos else (False,), (None, -5.0)):
@@ -773,6 +778,8 @@ FORMS = (('triv', 'array'), ('triv', 'matvec'), ('u1x2', 'array'), ('u1mix', 'ar
 
 
 def units(tier, seed, label):
+    if label == 'PY':  # pure-Python configuration (thorough only): the quick-sized enumeration
+        tier = 'quick'
     dmax = 6 if tier == 'quick' else 8
     us = []
     for d, spec, (struct, form) in itertools.product(range(1, dmax + 1), HERMITIAN_SPECTRA, FORMS):
